@@ -82,3 +82,35 @@ Fixpoint keeps_up (hc : Z) (evs : list (bool * Z)) : Prop :=
 (* the monitor's value after a run: 2 = the consumer has been ready at two edges since the last completion (nothing is waiting for it) *)
 Fixpoint hc_run (hc : Z) (evs : list (bool * Z)) : Z :=
   match evs with [] => hc | (comp, ready) :: r => hc_run (hnext hc comp ready) r end.
+
+(* ---- the multi-frame software receiver (session 5).  The same receiver as sw_rx, repeated over the whole record:
+   wait for a falling edge (index e; the line is high when the wait starts), sample at e + P/2 + k*P for k = 0..9 (mid-bit at the
+   nominal bit period P), require start = 0 and stop = 1, collect the eight data bits LSB first, then go back to waiting, starting at
+   the stop-bit sample instant (where the line has just been seen high).
+     None        : framing error (a start sample that is not 0 or a stop sample that is not 1) somewhere in the record;
+     Some bytes  : the bytes of all complete frames, in order.  The record may end idle or inside a frame (that last frame is dropped).
+   fuel bounds the number of frames; every frame consumes at least 9*P + 1 >= 1 elements, so (length line) never runs out for P >= 1. *)
+Fixpoint sw_rx_from (fuel P : nat) (line : list Z) : option (list Z) :=
+  match fuel with
+  | O => Some []
+  | S fuel' =>
+      match falling_edge line with
+      | None => Some []
+      | Some e =>
+          match samples line (e + P / 2) P 10 with
+          | Some (st :: b0 :: b1 :: b2 :: b3 :: b4 :: b5 :: b6 :: b7 :: [sp]) =>
+              if (st =? 0) && (sp =? 1)
+              then option_map (cons (byte_of [b0; b1; b2; b3; b4; b5; b6; b7])) (sw_rx_from fuel' P (skipn (e + P / 2 + 9 * P) line))
+              else None
+          | _ => Some []
+          end
+      end
+  end.
+Definition sw_rx_all (P : nat) (line : list Z) : option (list Z) := sw_rx_from (length line) P line.
+
+(* a line made of whole 8N1 frames: for each (b, m) the ten levels of frame8n1 b held exactly P clocks each, then m clocks high *)
+Fixpoint frames_line (P : nat) (fs : list (Z * nat)) : list Z :=
+  match fs with
+  | [] => []
+  | (b, m) :: r => hold (repeat P 10) (frame8n1 b) ++ repeat 1 m ++ frames_line P r
+  end.
